@@ -1,6 +1,8 @@
 //! `check <ID> [--tier quick|thorough] [--seed N] [--replay FILE] [--strict]`
 mod engine;
 mod isa;
+mod mach;
+mod progen_sem;
 mod props;
 
 use engine::{Ctx, Tier};
@@ -46,7 +48,22 @@ fn main() {
     let threads = std::thread::available_parallelism().map(|n| n.get()).unwrap_or(8).min(16);
     let ctx = Ctx { id: id.clone(), tier, seed, start: Instant::now(), replay, strict, threads };
     engine::install_panic_hook();
+    // global watchdog: a resource limit is "inconclusive" (exit 2), never a violation
+    {
+        let limit = std::env::var("VERIF_WATCHDOG_S").ok().and_then(|s| s.parse().ok()).unwrap_or(match tier {
+            Tier::Quick => 1500u64,
+            Tier::Thorough => 6 * 3600,
+        });
+        let id2 = id.clone();
+        std::thread::spawn(move || {
+            std::thread::sleep(std::time::Duration::from_secs(limit));
+            println!("INCONCLUSIVE property={} watchdog after {} s (resource limit, not a violation)", id2, limit);
+            std::process::exit(2);
+        });
+    }
     let ev = match id.as_str() {
+        "C01" => props::cpu::run(&ctx, props::cpu::Which::Semantics),
+        "C15" => props::cpu::run(&ctx, props::cpu::Which::Cycles),
         "C08" => props::c08::run(&ctx),
         _ => {
             eprintln!("unknown property {}", id);
